@@ -151,6 +151,12 @@ type xkbIn struct {
 	Files  []xkbRtFile `json:"files,omitempty"`
 	Nred   *int        `json:"nred,omitempty"`
 	Failat *int        `json:"failat,omitempty"`
+	// ck
+	Lines   [][]string `json:"lines,omitempty"` // the script `go build -n` prints
+	Nm      [][]string `json:"nm,omitempty"`    // the lines `go tool nm` prints
+	Buildrc *int       `json:"buildrc,omitempty"`
+	Nmrc    *int       `json:"nmrc,omitempty"`
+	Objrc   *int       `json:"objrc,omitempty"`
 }
 
 type xkbCase struct {
@@ -221,6 +227,15 @@ func xkbCaseJSON(c xkbCase) map[string]interface{} {
 			fs = []xkbRtFile{}
 		}
 		in["files"], in["nred"], in["failat"] = fs, *c.In.Nred, *c.In.Failat
+	case "ck":
+		nn := func(ls [][]string) [][]string {
+			out := [][]string{}
+			for _, l := range ls {
+				out = append(out, xkbNN(l))
+			}
+			return out
+		}
+		in["lines"], in["nm"], in["buildrc"], in["nmrc"], in["objrc"] = nn(c.In.Lines), nn(c.In.Nm), *c.In.Buildrc, *c.In.Nmrc, *c.In.Objrc
 	}
 	return in
 }
@@ -514,9 +529,52 @@ func xkbSetup(c xkbCase, dir string) error {
 			return err
 		}
 		return ioutil.WriteFile(filepath.Join(dir, "tools", "ld"), []byte(xkbRecorder+"exit 0\n"), 0755)
+	case "ck":
+		tools := filepath.Join(dir, "tools")
+		for _, d := range []string{tools, filepath.Join(dir, "work")} {
+			if err := os.MkdirAll(d, 0755); err != nil {
+				return err
+			}
+		}
+		join := func(ls [][]string) string {
+			var b strings.Builder
+			for _, l := range ls {
+				b.WriteString(xkbStr(l) + "\n")
+			}
+			return b.String()
+		}
+		w := func(name, text string, mode os.FileMode) error { return ioutil.WriteFile(filepath.Join(tools, name), []byte(text), mode) }
+		for _, f := range [][2]string{{"script.txt", join(in.Lines)}, {"nm.txt", join(in.Nm)}, {"build.rc", strconv.Itoa(*in.Buildrc)}, {"nm.rc", strconv.Itoa(*in.Nmrc)}} {
+			if err := w(f[0], f[1], 0644); err != nil {
+				return err
+			}
+		}
+		// harmless stand-ins for the tools a build script calls
+		for _, n := range []string{"buildid", "xbuildid", "compile"} {
+			if err := w(n, "#!/bin/sh\nexit 0\n", 0755); err != nil {
+				return err
+			}
+		}
+		if err := w("objcopy", xkbRecorder+"exit "+strconv.Itoa(*in.Objrc)+"\n", 0755); err != nil {
+			return err
+		}
+		return w("go", xkbFakeGoMain, 0755)
 	}
 	return nil
 }
+
+// a fake go tool for CompileKernel: `go build ... -n` prints the script and records its arguments and environment,
+// `go tool nm` prints the symbol list
+const xkbFakeGoMain = `#!/bin/sh
+d="$(dirname "$0")"
+case "$1" in
+build) printf '%s\n' "GOARCH=$GOARCH CGO_ENABLED=$CGO_ENABLED GOPATH=$GOPATH" > "$d/go.env"
+  for a in "$@"; do printf '%s\037' "$a"; done > "$d/go.args"
+  /bin/cat "$d/script.txt"; exit $(/bin/cat "$d/build.rc");;
+tool) /bin/cat "$d/nm.txt"; exit $(/bin/cat "$d/nm.rc");;
+esac
+exit 2
+`
 
 // xkbCall runs the real code.  It may end the process (log.Fatalf / os.Exit in the code under test).
 func xkbCall(c xkbCase, dir string, st *xkbState, out map[string]interface{}) {
@@ -574,6 +632,14 @@ func xkbCall(c xkbCase, dir string, st *xkbState, out map[string]interface{}) {
 		st.ctx = ctx
 		ctx.CompileRT0()
 		ctx.LinkKernel()
+	case "ck":
+		if err := os.Chdir(dir); err != nil {
+			panic("harness: " + err.Error())
+		}
+		os.Setenv("PATH", filepath.Join(dir, "tools")+":/bin:/usr/bin")
+		ctx := &Context{Architectures: []string{"amd64"}, WorkDir: filepath.Join(dir, "work"), cwd: dir, objcopy: filepath.Join(dir, "tools", "objcopy")}
+		st.ctx = ctx
+		ctx.CompileKernel()
 	default:
 		panic("harness: unknown component " + c.Comp)
 	}
@@ -713,6 +779,28 @@ func xkbObserve(c xkbCase, dir string, st *xkbState, out map[string]interface{})
 			}
 		}
 		out["calls"], out["link"] = calls, link
+	case "ck":
+		norm := func(x string) string { return strings.Replace(x, dir, "$DIR", -1) }
+		data, err := ioutil.ReadFile(filepath.Join(dir, "work", "build.sh"))
+		out["written"], out["script"] = err == nil, norm(string(data))
+		env, _ := ioutil.ReadFile(filepath.Join(dir, "tools", "go.env"))
+		out["goenv"] = strings.TrimSuffix(string(env), "\n")
+		goargs := []string{}
+		for _, a := range xkbRecorded(filepath.Join(dir, "tools", "go.args")) {
+			for _, x := range a {
+				goargs = append(goargs, norm(x))
+			}
+		}
+		out["goargs"] = goargs
+		obj := [][]string{}
+		for _, a := range xkbRecorded(filepath.Join(dir, "tools", "objcopy.log")) {
+			call := []string{}
+			for _, x := range a {
+				call = append(call, norm(x))
+			}
+			obj = append(obj, call)
+		}
+		out["objcopy"] = obj
 	}
 	_ = in
 }
@@ -1007,7 +1095,7 @@ func TestVerifXkbRun(t *testing.T) {
 
 func xkbMine(comp string) bool {
 	switch comp {
-	case "cr", "ls", "wo", "ve", "cd", "rt":
+	case "cr", "ls", "wo", "ve", "cd", "rt", "ck":
 		return true
 	}
 	return false
@@ -1251,6 +1339,39 @@ func xkbRandCase(rng *rand.Rand) xkbCase {
 			tools = append(tools, tl)
 		}
 		return xkbCase{Comp: "cd", Leg: "T", In: xkbIn{Tools: tools}}
+	case x < 95: // CompileKernel over a fake go tool
+		// every line is harmless for the shell that runs the script (the stand-in tools exist, ":" does nothing)
+		pool := []string{": compile -o $WORK/b001/_pkg_.a -trimpath \"$WORK/b001=>\" -p runtime", "mkdir -p $WORK/b001/", "mv $WORK/b001/exe/a.out main", "mv  a b",
+			"$WORK/../tools/buildid -w $WORK/b001/_pkg_.a # internal", "$WORK/../tools/buildid -w", "$WORK/../tools/buildid  -w x", "$WORK/../tools/buildid -x $WORK/a",
+			"$WORK/../tools/xbuildid -w $WORK/b001/_pkg_.a", "$WORK/../tools/buildid", ": buildid -w x", ":", "", "#", "# import config", ": mv a b", "buildid -w $WORK/x",
+			"$WORK/../tools/compile -o $WORK/go.o $WORK$WORK", "# packagefile runtime=$WORK/b002/_pkg_.a", ": $WORKX $ WORK"}
+		var lines [][]string
+		for i, n := 0, rng.Intn(25); i < n; i++ {
+			lines = append(lines, xkbChars(xkbPick(rng, pool)))
+		}
+		const kp = "github.com/ProjectSerenity/firefly/kernel/"
+		names := []string{kp + "kmain.Kmain", kp + "kmain.Kmain", kp + "kmain.Kmain.func1", kp + "xkmain.Kmain", "main.main", "runtime.g0", "kmain.Kmain",
+			kp + "kmain.kmain", kp + "kmain.KmainX", "type..eq.[2]" + kp + "kmain.Kmain"}
+		var nm [][]string
+		for i, n := 0, rng.Intn(12); i < n; i++ {
+			l := fmt.Sprintf("%8x %s %s", rng.Intn(1<<28), xkbPick(rng, []string{"T", "t", "D", "R", "U"}), xkbPick(rng, names))
+			switch rng.Intn(12) {
+			case 0:
+				l = "         U " + xkbPick(rng, names)
+			case 1:
+				l = xkbPick(rng, names) // no address column
+			case 2:
+				l += " "
+			}
+			nm = append(nm, xkbChars(l))
+		}
+		rc := func() *int {
+			if rng.Intn(12) == 0 {
+				return xkbPtrI(1 + rng.Intn(3))
+			}
+			return xkbPtrI(0)
+		}
+		return xkbCase{Comp: "ck", Leg: "T", In: xkbIn{Lines: lines, Nm: nm, Buildrc: rc(), Nmrc: rc(), Objrc: rc()}}
 	default: // CompileRT0 + LinkKernel
 		var files []xkbRtFile
 		perm := rng.Perm(30)
